@@ -149,6 +149,8 @@ func runC06(c *Ctx) {
 	importRules(c, runC10, map[string]string{"C10.R10": "C06.R12"}, map[string]string{"C06.R12": "a rule written with $dnsrewrite carries a rewrite (or is rejected), so the rewrite filter removes it before the precedence is applied (shared with C10.R10)"})
 	importRules(c, runC08, map[string]string{"C08.R1": "C06.R8", "C08.R2": "C06.R8"}, map[string]string{"C06.R8": "rules disabled by badfilter never survive the filter, whatever their position (shared with C08.R1/R2)"})
 	checkDocumentOnly(c, "C06.R9")
+	importRules(c, runC02, map[string]string{"C02.R9": "C06.R13"}, map[string]string{"C06.R13": "the DNS verdict is taken among the rules the DNS level can honour: a rule is loaded into the DNS engine iff all its options are host-level ones (shared with C02.R9)"})
+	importRules(c, runC12, map[string]string{"C12.R7": "C06.R14"}, map[string]string{"C06.R14": "every rule reaches the engines as one whole line (shared with C12.R7)"})
 	importRules(c, runC11, map[string]string{"C11.R5": "C06.R10"}, nil)
 	importRules(c, runC01, map[string]string{"C01.R2": "C06.R10", "C01.R3": "C06.R10", "C01.R4": "C06.R10", "C01.R6": "C06.R10"},
 		map[string]string{"C06.R10": "the precedence is applied to every matching rule, whichever lookup table holds it: engine consults every table, shortcut / domain / sequential tables are complete, the storage scanner visits every list however the rules are split (shared with C01.R2-R4/R6, C11.R5)"})
